@@ -153,8 +153,13 @@ class NPProxy(object):
 
 
 def run_filter(flux, wave, mask, toair):
-    rec = {'interp': [], 'logdiff': None, 'flux_interp': None}
-    real_np, real_mi = spec2d.np, spec2d.djs_maskinterp
+    rec = {'interp': [], 'logdiff': None, 'flux_interp': None, 't2xy': None}
+    real_np, real_mi, real_t2xy = spec2d.np, spec2d.djs_maskinterp, spec2d.traceset2xy
+
+    def t2xy(*a, **k):
+        r = real_t2xy(*a, **k)
+        rec['t2xy'] = r[1]       # the last call before the band loop evaluates the fitted d(log lambda)
+        return r
 
     def mi(*a, **k):
         r = real_mi(*a, **k)
@@ -162,6 +167,7 @@ def run_filter(flux, wave, mask, toair):
         return r
     spec2d.np = NPProxy(rec)
     spec2d.djs_maskinterp = mi
+    spec2d.traceset2xy = t2xy
     try:
         kw = {'toair': toair}
         if mask is not None:
@@ -171,7 +177,7 @@ def run_filter(flux, wave, mask, toair):
         else:
             res = spec2d.filter_thru(flux, wset=wave['wset'], **kw)
     finally:
-        spec2d.np, spec2d.djs_maskinterp = real_np, real_mi
+        spec2d.np, spec2d.djs_maskinterp, spec2d.traceset2xy = real_np, real_mi, real_t2xy
     return res, rec
 
 
@@ -204,8 +210,16 @@ def filter_job(j):
         rj, _ = run_filter(junk, wave, mask, toair)
         out['res_junk'] = [fls(r) for r in rj]
         out['good_per_trace'] = [int((mask[t] == 0).sum()) for t in range(nT)]
-    # the implementation's own weights
+    # bounds that do not depend on recorded weights: interpolated values lie between unmasked neighbours
+    good = (mask == 0) if mask is not None else np.ones(flux.shape, dtype=bool)
+    out['good_min'] = [fl(flux[t][good[t]].min()) if good[t].any() else None for t in range(nT)]
+    out['good_max'] = [fl(flux[t][good[t]].max()) if good[t].any() else None for t in range(nT)]
+    # the implementation's own weights: |fitted d(log lambda)| times the interpolated response; when np.absolute is not
+    # applied, the raw fitted values are what enters the sum
     ld = rec['logdiff']
+    out['absolute_applied'] = ld is not None
+    if ld is None and rec['t2xy'] is not None and np.shape(rec['t2xy']) == flux.shape:
+        ld = rec['t2xy']
     if ld is None or len(rec['interp']) != 5:
         out['weights_recorded'] = False
         return out
